@@ -231,6 +231,117 @@ pub fn run_history<P: Payload>(ops: &[Op], prof: &Profile, cfg: &StepCfg, record
     run
 }
 
+/// Model-free continuation for C02 (see the call site): valid calls only — ids are current, liveness is
+/// read from the arena's removed flags before every call — outcomes are ignored, and after every call the
+/// parent / next / previous links of all slots are walked with three colours.
+fn degraded_tail_c02<P: Payload>(w: &mut World<P>, rest: &[Op]) -> Vec<Failure> {
+    use crate::ir::pick;
+    use std::panic::{catch_unwind, AssertUnwindSafe};
+    let mut ids: Vec<indextree::NodeId> = w.m.n.iter().map(|m| m.id).collect();
+    let cycle = |w: &World<P>, ids: &Vec<indextree::NodeId>| -> Option<String> {
+        let n = ids.len();
+        let mut links: Vec<[Option<usize>; 3]> = Vec::with_capacity(n);
+        let mut live = vec![false; n];
+        for (s, id) in ids.iter().enumerate() {
+            let node = w.arena.get(*id)?;
+            live[s] = !node.is_removed();
+            let f = |l: Option<indextree::NodeId>| l.map(|i| usize::from(i) - 1).filter(|&t| t < n);
+            links.push([f(node.parent()), f(node.next_sibling()), f(node.previous_sibling())]);
+        }
+        for (dir, what) in [(0usize, "parent"), (1, "next_sibling"), (2, "previous_sibling")] {
+            let mut state = vec![0u8; n];
+            for x in 0..n {
+                if !live[x] || state[x] != 0 {
+                    continue;
+                }
+                let mut path = Vec::new();
+                let mut cur = Some(x);
+                while let Some(y) = cur {
+                    if state[y] == 1 {
+                        return Some(format!("following {what} links from slot {x} never ends (cycle through slot {y})"));
+                    }
+                    if state[y] == 2 {
+                        break;
+                    }
+                    state[y] = 1;
+                    path.push(y);
+                    cur = links[y][dir];
+                }
+                for y in path {
+                    state[y] = 2;
+                }
+            }
+        }
+        None
+    };
+    for op in rest.iter().take(60) {
+        if w.arena.count() != ids.len() {
+            break;
+        }
+        let live: Vec<usize> = (0..ids.len()).filter(|&s| w.arena.get(ids[s]).map_or(false, |n| !n.is_removed())).collect();
+        if live.is_empty() {
+            break;
+        }
+        let sel = |s: &Sel| -> usize {
+            match s {
+                Sel::Slot(k) | Sel::SlotAlt(k) if (*k as usize) < ids.len() && live.contains(&(*k as usize)) => *k as usize,
+                Sel::Slot(k) | Sel::SlotAlt(k) => live[*k as usize % live.len()],
+                Sel::Live(k) | Sel::Removed(k) | Sel::Rel(_, k) => live[pick(*k, live.len())],
+            }
+        };
+        let serial = w.m.next_serial;
+        w.m.next_serial += 1;
+        let arena = &mut w.arena;
+        let ctx = w.ctx.clone();
+        let new_id = catch_unwind(AssertUnwindSafe(|| -> Option<indextree::NodeId> {
+            match op {
+                Op::New { v } => Some(arena.new_node(P::make_untracked(&ctx, serial, *v))),
+                Op::AppendValue { parent, v } => Some(ids[sel(parent)].append_value(P::make_untracked(&ctx, serial, *v), arena)),
+                Op::Insert { kind, target, node, .. } => {
+                    let (t, n) = (ids[sel(target)], ids[sel(node)]);
+                    let _ = match kind {
+                        Kind::Append => t.checked_append(n, arena),
+                        Kind::Prepend => t.checked_prepend(n, arena),
+                        Kind::After => t.checked_insert_after(n, arena),
+                        Kind::Before => t.checked_insert_before(n, arena),
+                    };
+                    None
+                }
+                Op::Detach { x } => {
+                    ids[sel(x)].detach(arena);
+                    None
+                }
+                Op::Remove { x } => {
+                    ids[sel(x)].remove(arena);
+                    None
+                }
+                Op::RemoveSubtree { x } => {
+                    ids[sel(x)].remove_subtree(arena);
+                    None
+                }
+                _ => None,
+            }
+        }));
+        if let Ok(Some(id)) = new_id {
+            let slot = usize::from(id) - 1;
+            if slot == ids.len() {
+                ids.push(id);
+            } else if slot < ids.len() {
+                ids[slot] = id;
+            } else {
+                break;
+            }
+        }
+        if w.arena.count() != ids.len() {
+            break;
+        }
+        if let Some(msg) = cycle(w, &ids) {
+            return vec![Failure::new(&["C02"], "degraded/link-cycle", format!("after the forest had stopped being well-formed (reported for another property), a further valid call ({}) closed a loop: {msg}", op.kind_name()))];
+        }
+    }
+    Vec::new()
+}
+
 pub fn run_history_on<P: Payload>(w: &mut World<P>, ops: &[Op], prof: &Profile, cfg: &StepCfg, record: bool) -> CaseRun {
     let mut run = CaseRun::default();
     let mut dig: u64 = 0xfeed;
@@ -307,6 +418,15 @@ pub fn run_history_on<P: Payload>(w: &mut World<P>, ops: &[Op], prof: &Profile, 
             if !hits && w.resync() {
                 run.resynced += 1;
                 continue;
+            }
+            if !hits && cfg.target.as_deref() == Some("C02") {
+                // C02 has a model-free core (no cycles along parent / sibling links): the rest of the history is
+                // executed without the model and only that core is judged after every call
+                let fs = degraded_tail_c02(w, &ops[i + 1..]);
+                if !fs.is_empty() {
+                    run.fail = Some((i, fs, None));
+                    break;
+                }
             }
             if !hits && cfg.target.as_deref() == Some("C10") {
                 // the double-ended laws relate an iterator to its own forward sequence: judge them on this state too
